@@ -348,6 +348,26 @@ def driveLazy (t : Option LState) : List String → Option (Option LState × Str
     let (s, written) := t.ls.save t.cls t.cid.strCalls t.base
     let entries : List Entry := written.filterMap fun nv => nv.2.map fun v => ⟨[], nv.1, t.cid.serializeAt t.pr nv.1 v⟩
     pure (some { t with ls := s }, enc (fileText entries))
+  | "l_save_il" :: opsf => do
+    -- one field per listed node: operations separated by '|', each 'set;<where fields ,>;<text>' / 'rnet;<n>' / 'rchan;<n|~>;<c>'
+    let t ← t
+    let ops ← opsf.mapM fun f =>
+      if f = "-" then some ([] : List TOp) else
+      (f.splitOn "|").mapM fun o =>
+        match o.splitOn ";" with
+        | ["set", w, text] => do
+          let w ← decWhere (w.splitOn ",")
+          let text ← dec text
+          pure (TOp.set w text)
+        | ["rnet", n] => (dec n).map TOp.resetNet
+        | ["rchan", n, c] => do
+          let n ← decOpt n
+          let c ← dec c
+          pure (TOp.resetChan n c)
+        | _ => none
+    let (s, written) := t.ls.saveInterleaved t.cls t.cid.strCalls t.base ops
+    let entries : List Entry := written.filterMap fun nv => nv.2.map fun v => ⟨[], nv.1, t.cid.serializeAt t.pr nv.1 v⟩
+    pure (some { t with ls := s }, enc (fileText entries))
   | ["l_reopen", text, clear] => do
     let t ← t
     let text ← dec text
